@@ -119,7 +119,11 @@ class C16(Check):
             "patterns x target lists, version-2 chains of depth 1..3 x auth data, each also with one "
             "spoiled signature; every graph document of (b) whose elements are all signed by elements or "
             "the root and whose targets reach the root) must load through HSMCertificate.from_jsonfile "
-            "and give the verdicts and values an independent reference computes. An execution is distinct by (part, load outcome or exception type, "
+            "and give the verdicts and values an independent reference computes; (f) version-2 element names "
+            "from a menu (non-ASCII, astral, lone surrogates, control characters, quotes and backslashes, "
+            "10^4 characters, JSON-ish tokens, case twins) on the target and on a certifier, and names "
+            "colliding with the root word, as genuine documents; one run of load/validate/save/load/validate "
+            "in a child process under an ASCII locale. An execution is distinct by (part, load outcome or exception type, "
             "validation outcome classes, round-trip outcome).")
     assumptions = [
         "any exception raised by from_jsonfile counts as 'reports an error' (the tools catch Exception)",
@@ -176,6 +180,9 @@ class C16(Check):
             for idx in range(4):
                 cs.append({"kind": "fields", "ver": ver, "idx": idx})
         cs.append({"kind": "special"})
+        for part in range(4):
+            cs.append({"kind": "names", "part": part})
+        cs.append({"kind": "ascii"})
         cs.append({"kind": "genuine", "ver": 1})
         cs.append({"kind": "genuine", "ver": 2})
         for first in range(len(KINDS)):
@@ -480,8 +487,19 @@ class C16(Check):
                         d["elements"][i][fld] = fn(e[fld])
                         d["targets"] = list(targets)
                         self.genuine_eval(d, "special:v1:hex-spelling", stats, vs)
-        # version 1: the embedded certifier keys in the other encodings (parent re-signed)
+        # version 1: tweak whose HMAC with the certifier key starts with one / two zero bytes
         w1 = self.w1
+        for nz in (1, 2):
+            for nm in ("ui", "signer"):
+                d = G.clone(b1)
+                e = G.element_of(d, nm)
+                zt = w1.zero_tweak("attestation", nz)
+                e["tweak"] = zt.hex()
+                e["signature"] = w1.sign("attestation", zt, bytes.fromhex(e["message"])).hex()
+                exp = self.genuine_eval(d, "special:v1:zero-hmac", stats, vs)
+                if exp[nm][0] != "ok":
+                    raise HarnessError("genuine chain with a short tweak scalar not valid for the reference")
+        # version 1: the embedded certifier keys in the other encodings (parent re-signed)
         for parent, child in (("attestation", "ui"), ("device", "attestation")):
             for enc in ("compressed", "hybrid"):
                 d = G.clone(b1)
@@ -495,6 +513,90 @@ class C16(Check):
                                           nm).hex()
                 d["targets"] = [child, parent]
                 self.genuine_eval(d, "special:v1:key-encoding", stats, vs)
+
+    # ---- (f) element names: free text in version 2 ------------------------------------------------
+    NAME_MENU = [
+        "\u00e9", "\u540d\u524d", "\U0001f600", "quote-\ud83d", "\udc00", "a\u0000b", "\n", "\u007f", "\u2028",
+        'a"b\\c', "'", "\\u0041", " ", "x" * 10000, "null", "true", "0", "[]", "{}", "-1e5", "NaN",
+        "sgx_root\u0000", "\ufeff", "e\u0301", "\u00e9\u0301", "Quote", "QUOTE",
+    ]
+
+    def named_docs(self):
+        """The genuine 4-element chain with one element (the quote = target, or the leaf certificate,
+        which the attestation key names as certifier) renamed to each entry of NAME_MENU, consistently;
+        plus the reserved-word documents shared with C07."""
+        base = self.base_doc(2)
+        out = []
+        for nm in self.NAME_MENU:
+            for old in ("quote", "quoting_enclave"):
+                d = G.clone(base)
+                for e in d["elements"]:
+                    if e["name"] == old:
+                        e["name"] = nm
+                    if e["signed_by"] == old:
+                        e["signed_by"] = nm
+                d["targets"] = [nm if t == old else t for t in d["targets"]]
+                out.append(("names:v2:" + ("target" if old == "quote" else "certifier"), d))
+        for label, d, _ in G.reserved_name_docs(self.w2):
+            out.append(("names:v2:" + label, d))
+        for label, d in G.zero_value_docs(self.w2):
+            out.append(("names:v2:" + label, d))
+        return out
+
+    def run_names(self, case, stats, vs):
+        for label, d in self.named_docs()[case["part"]::4]:
+            self.genuine_eval(d, label, stats, vs)
+
+    def run_ascii(self, case, stats, vs):
+        """The same load -> validate -> save -> load -> validate in a child process whose locale is
+        ASCII (LC_ALL=C, UTF-8 mode and locale coercion off): files must round-trip there too."""
+        import os
+        import subprocess
+        import sys
+        from .. import env
+        docs = [("v1-base", self.base_doc(1)), ("v2-base", self.base_doc(2))]
+        picked = [d for d in self.named_docs() if d[0].startswith("names:v2:target")]
+        docs += [("name-%d" % i, d) for i, (_, d) in enumerate(picked)]
+        man = {"root1": self.root1, "root2": self.root2, "docs": []}
+        for did, d in docs:
+            path = self.impl.path("ascii-" + did)
+            with open(path, "w", encoding="ascii") as f:
+                f.write(json.dumps(d))
+            man["docs"].append({"id": did, "path": path})
+        mpath = self.impl.path("ascii-manifest")
+        with open(mpath, "w", encoding="ascii") as f:
+            json.dump(man, f)
+        cenv = dict(os.environ, LC_ALL="C", LANG="C", PYTHONUTF8="0", PYTHONCOERCECLOCALE="0",
+                    PYTHONIOENCODING="ascii:backslashreplace")
+        cenv.pop("LC_CTYPE", None)
+        r = subprocess.run([sys.executable, "-X", "utf8=0", "-m", "verif.certchild", mpath], env=cenv,
+                           cwd=env.HOME, capture_output=True, timeout=300)
+        try:
+            res = json.loads(r.stdout.decode("ascii").strip().splitlines()[-1])
+        except Exception:   # noqa
+            raise HarnessError("ASCII-locale child failed: rc=%s %s" % (r.returncode, r.stderr.decode("ascii", "replace")[-800:]))
+        if "utf" in res["encoding"].lower().replace("-", "") or res["utf8_mode"]:
+            stats.bump("ascii_locale_unavailable")
+        for did, d in docs:
+            stats.evaluations += 1
+            c = res["docs"].get(did, {})
+            text = json.dumps(d)
+            label = "ascii-locale:" + ("base" if "base" in did else "name")
+            stats.observe((label, c.get("load"), c.get("save"), c.get("reload"), c.get("same")))
+            if c.get("load") != "ok":
+                self.viol(vs, "C16:ascii-locale:genuine-refused:%s" % c.get("load"), text, label,
+                          {"child": c, "encoding": res["encoding"]}, {"load": "ok"},
+                          "a genuine certificate loads, whatever the locale")
+            elif c.get("save") != "ok" or c.get("reload") != "ok" or c.get("same") is not True:
+                step = "save" if c.get("save") != "ok" else "reload" if c.get("reload") != "ok" else "verdicts"
+                self.viol(vs, "C16:ascii-locale:roundtrip:%s:%s" % (step, c.get(step, "differ")), text, label,
+                          {"child": c, "encoding": res["encoding"]}, {"save": "ok", "reload": "ok", "same": True},
+                          "save and load again: same verdicts and values, whatever the locale")
+        for m in man["docs"]:
+            for pth in (m["path"], m["path"] + ".saved"):
+                if os.path.exists(pth):
+                    os.unlink(pth)
+        os.unlink(mpath)
 
     def genuine_eval(self, d, label, stats, vs):
         """d is well formed and every target has a path: it must load, and give the verdicts and values
